@@ -460,13 +460,26 @@ func init() {
 	reg("C13auth", runAuthPayload)
 }
 
+// genBig draws a selector that is as often large as small (rapid's integer ranges favour small values,
+// which would leave "huge count x large payload" combinations almost untried).
+func genBig(rt *rapid.T, label string) int {
+	switch rapid.IntRange(0, 3).Draw(rt, label+"class") {
+	case 0:
+		return rapid.IntRange(0, 300).Draw(rt, label)
+	case 1:
+		return rapid.SampledFrom([]int{255, 256, 4095, 4096, 16383, 32767, 32768, 59999, 60000, 65534, 65535, 65536, 69999}).Draw(rt, label)
+	default:
+		return 1000 * rapid.IntRange(1, 70).Draw(rt, label+"k")
+	}
+}
+
 func TestProp_C13_Receive(t *testing.T) {
 	defer sim.MarkCompleted("C13receive", false)
 	defer sim.ClearCrumb()
 	rapid.Check(t, func(rt *rapid.T) {
 		c := &RecvCase{Cfg: genSessCfg(rt), PolA: rapid.IntRange(0, 63).Draw(rt, "pol"), State: rapid.IntRange(0, 9).Draw(rt, "state"),
 			NoKey: rapid.IntRange(0, 7).Draw(rt, "nokey") == 0, Kind: rapid.IntRange(0, 11).Draw(rt, "kind"),
-			A: rapid.IntRange(0, 70000).Draw(rt, "a"), B: rapid.IntRange(0, 70000).Draw(rt, "b")}
+			A: genBig(rt, "a"), B: genBig(rt, "b")}
 		c.Cfg.FragA, c.Cfg.FragB = 0, 0
 		if c.Kind%12 <= 1 || c.Kind%12 == 7 {
 			c.Raw = rapid.SliceOfN(rapid.Byte(), 0, 80).Draw(rt, "raw")
@@ -572,7 +585,7 @@ func TestProp_C13_Auth(t *testing.T) {
 	defer sim.MarkCompleted("C13auth", false)
 	defer sim.ClearCrumb()
 	rapid.Check(t, func(rt *rapid.T) {
-		c := &AuthCase{Cfg: genSessCfg(rt), Kind: rapid.IntRange(0, 9).Draw(rt, "kind"), A: rapid.IntRange(0, 70000).Draw(rt, "a"), B: rapid.IntRange(0, 70000).Draw(rt, "b")}
+		c := &AuthCase{Cfg: genSessCfg(rt), Kind: rapid.IntRange(0, 9).Draw(rt, "kind"), A: genBig(rt, "a"), B: genBig(rt, "b")}
 		c.Cfg.FragB = 0
 		sim.Judge(rt, "C13auth", c)
 	})
